@@ -229,7 +229,7 @@ func genVolumeHist(t *rapid.T, big bool) Hist {
 	cost := rapid.SampledFrom([]int{1, 3, 7}).Draw(t, "cost")
 	opens := rapid.IntRange(270, 330).Draw(t, "opens")
 	churn := rapid.IntRange(530, 600).Draw(t, "churn")
-	const early, broke = 12, 6
+	const early, broke = 12, 12
 	rich := [3]Acct{{cost, 1 << 40}, {cost, 1 << 40}, {cost, 5000}}
 	hst.Subs = []Sub{{Acct: rich}, {Acct: rich}, {Acct: rich}}
 	for i := 0; i < early; i++ {
@@ -251,12 +251,6 @@ func genVolumeHist(t *rapid.T, big bool) Hist {
 	add(Op{K: "create", S: b, Name: "smf", UUs: []UU{{RG: 1, Req: 100}}})
 	add(Op{K: "create", S: c, Name: "smf", UUs: []UU{{RG: 2, Req: 100}}})
 	add(Op{K: "update", S: c, UUs: on(2, 100, 30)})
-	// subscribers that get quota, use part of it and leave without a final report: the rest stays reserved
-	for i := 0; i < early; i++ {
-		add(Op{K: "create", S: e0 + i, Name: "smf", UUs: []UU{{RG: 1, Req: 100}}})
-		add(Op{K: "update", S: e0 + i, UUs: on(1, 100, 30)})
-		add(Op{K: "release", S: e0 + i})
-	}
 	// one subscriber with hundreds of sessions open at once
 	for i := 0; i < opens; i++ {
 		add(Op{K: "create", S: b, Name: fmt.Sprintf("smf%d", i%7)})
@@ -274,14 +268,19 @@ func genVolumeHist(t *rapid.T, big bool) Hist {
 		add(Op{K: "release", S: c, Sess: 1})
 	}
 	add(Op{K: "update", S: c, Sess: 0, UUs: on(2, 100, 30)})
-	// the process gets crowded: more than 1024 subscriber contexts
-	add(Op{K: "bystanders", S: a, N: 1100})
-	for i := 0; i < broke; i++ {
+	// the process gets crowded - more than 1024 subscriber contexts, all with a session open - and all along, by
+	// turns, a subscriber gets quota, uses part of it and leaves without a final report (the rest stays reserved), and
+	// a subscriber without money arrives and asks for quota
+	for i := 0; i < early; i++ {
+		add(Op{K: "bystanders", S: a, N: 100, Sess: 1})
+		add(Op{K: "create", S: e0 + i, Name: "smf", UUs: []UU{{RG: 1, Req: 100}}})
+		add(Op{K: "update", S: e0 + i, UUs: on(1, 100, 30)})
+		add(Op{K: "release", S: e0 + i})
 		add(Op{K: "create", S: m0 + i, Name: "smf", UUs: []UU{{RG: 1, Req: 100}}})
 		add(Op{K: "update", S: m0 + i, UUs: []UU{{RG: 1, Req: 100, Conts: []Cont{{Q: "online", Tot: 0, Pm: 0}}}, {RG: 2, Req: 50}}})
 	}
 	// ... more than 10000
-	add(Op{K: "bystanders", S: a, N: 9500})
+	add(Op{K: "bystanders", S: a, N: 9000})
 	for i := 0; i < early; i++ {
 		add(Op{K: "create", S: e0 + i, Name: "smf", UUs: []UU{{RG: 1, Req: 100}}})
 		add(Op{K: "update", S: e0 + i, UUs: on(1, 100, 50)})
